@@ -51,7 +51,7 @@ PRE=(f"forall(x, y, implies(x in dom({ADJ}) and y in at({ADJ}, x), y in dom({ADJ
 register_spec_fun('none_obj',lambda ex,a,st: Opq(Obj.none,'obj'),lambda: None)
 
 def contracts():
-  TopT=CompT('Component',{'_dsl.all_value_nets':SetOf(PairOf(Sig,ObjK('net'))),'_dsl.all_adjacency':DictOf(Sig,SetOf(Sig))})
+  TopT=CompT('Component',{'_dsl.all_value_nets':SetOf(PairOf(ObjK('Sig',maybe_none=True),ObjK('net'))),'_dsl.all_adjacency':DictOf(Sig,SetOf(Sig))})
   SEEN=lambda: "p in seen"
   return [Contract(f'{F}::ComponentLevel3._check_port_in_nets', view={'s':TopT},
     cases=[Case('any', requires=PRE, raises_or_ensures=True, raises='Exception',
